@@ -7,7 +7,7 @@ import tempfile
 
 from s3transfer.utils import OSUtils
 
-from .s3 import InjectedOSError, InjectedReadError
+from .s3 import InjectedOSError, InjectedReadError, InjectedBrokenPipe
 
 
 def scratch_root():
@@ -57,8 +57,10 @@ class FaultyFile:
         s = o.sched
         s.point('fs.' + op, os.path.basename(self._name))
         if o.fault_on('fs:' + op, self._name):
-            if s.choose(2, 'fs:' + op):
-                e = InjectedOSError(f'injected {op} fault on {os.path.basename(self._name)}')
+            k = s.choose(3 if op == 'write' else 2, 'fs:' + op)
+            if k:
+                cls = InjectedBrokenPipe if k == 2 else InjectedOSError
+                e = cls(f'injected {op} fault on {os.path.basename(self._name)}')
                 o.note_injected(e, 'fs:' + op)
                 raise e
         s.emit('fs.' + op, file=os.path.basename(self._name), **kw)
@@ -281,8 +283,9 @@ class SinkStream:
             self.max_writers = self.active_writers
         try:
             s.point('sink.write', self.name)
-            if self._fault and s.choose(2, 'sink:write'):
-                e = InjectedOSError('injected sink write fault')
+            k = s.choose(3, 'sink:write') if self._fault else 0
+            if k:
+                e = (InjectedBrokenPipe if k == 2 else InjectedOSError)('injected sink write fault')
                 s.user.setdefault('injected', []).append(
                     {'exc': e, 'label': 'sink:write', 'retryable': False, 'step': s.step})
                 s.emit('fault', label='sink:write', exc='InjectedOSError', retryable=False)
